@@ -32,6 +32,7 @@ type env struct {
 	rnd   *h.Rand
 	keyA  *h.KeyPair
 	keyB  *h.KeyPair
+	w     *h.RecvWorker
 	known map[string]int
 }
 
@@ -99,20 +100,22 @@ func (e *env) gen(adversary string) *hcase {
 		hc.mode = ua.MessageSecurityModeSignAndEncrypt
 	}
 	nm := 2 + e.rnd.Intn(4)
-	seq := uint32(e.rnd.Pick(1, 2, 51, 1000, 70000))
 	type msg struct {
 		frames []frame
 	}
 	var msgs []msg
 	for i := 0; i < nm; i++ {
 		req := uint32(10 + i)
+		if i >= 2 && e.rnd.Chance(25) {
+			req = uint32(10 + i - 2) // a request id is used again after its message is complete (messages i-2 and i never overlap)
+		}
 		body := e.service(e.rnd.Pick(0, 4, 40, 400, 3000), !hc.server, req)
 		if body == nil {
 			return nil
 		}
 		hc.goods = append(hc.goods, body)
 		k := 1
-		if e.rnd.Chance(40) {
+		if e.rnd.Chance(45) {
 			k = 2 + e.rnd.Intn(2)
 		}
 		var m msg
@@ -124,26 +127,82 @@ func (e *env) gen(adversary string) *hcase {
 				ct = 'F'
 				exp = h.RecvExpectMerged(req, body)
 			}
-			m.frames = append(m.frames, frame{chunk: h.RecvRefChunk{Type: ct, ChannelID: 11, TokenID: 22, Seq: seq, Req: req, Body: body[lo:hi]}, kind: "orig", expect: exp})
-			seq++
+			m.frames = append(m.frames, frame{chunk: h.RecvRefChunk{Type: ct, ChannelID: 11, TokenID: 22, Req: req, Body: body[lo:hi]}, kind: "orig", expect: exp})
 		}
 		msgs = append(msgs, m)
 	}
+	// wire order: message after message, neighbouring messages sometimes interleaved chunk by chunk
+	for i := 0; i < nm; i++ {
+		if i+1 < nm && e.rnd.Chance(35) {
+			a, b := msgs[i].frames, msgs[i+1].frames
+			for len(a) > 0 || len(b) > 0 {
+				if len(b) == 0 || (len(a) > 0 && e.rnd.Bool()) {
+					hc.frames, a = append(hc.frames, a[0]), a[1:]
+				} else {
+					hc.frames, b = append(hc.frames, b[0]), b[1:]
+				}
+			}
+			i++
+		} else {
+			hc.frames = append(hc.frames, msgs[i].frames...)
+		}
+	}
+	seq := uint32(e.rnd.Pick(1, 2, 51, 1000, 70000))
+	for i := range hc.frames {
+		hc.frames[i].chunk.Seq = seq
+		seq++
+	}
 	switch adversary {
 	case "late":
-		// one complete message is held back and arrives after all later ones
-		i := e.rnd.Intn(nm - 1)
-		late := msgs[i]
-		for j := range late.frames {
-			late.frames[j].kind = "late"
-			late.frames[j].expect = "reject"
+		// the chunks of one request are held back and arrive after everything else
+		req := hc.frames[e.rnd.Intn(len(hc.frames)/2+1)].chunk.Req
+		var keep, late []frame
+		lastOther := -1
+		for i, f := range hc.frames {
+			if f.chunk.Req != req {
+				lastOther = i
+			}
 		}
-		msgs = append(append(append([]msg{}, msgs[:i]...), msgs[i+1:]...), late)
-	}
-	for _, m := range msgs {
-		hc.frames = append(hc.frames, m.frames...)
-	}
-	if adversary == "copy" {
+		for i, f := range hc.frames {
+			if f.chunk.Req == req && i < lastOther {
+				f.kind, f.expect = "late", "reject"
+				late = append(late, f)
+			} else {
+				keep = append(keep, f)
+			}
+		}
+		if len(late) == 0 {
+			return nil
+		}
+		// what is left of a partly delayed message can no longer be completed
+		for i := range keep {
+			if keep[i].chunk.Req == req {
+				keep[i].kind, keep[i].expect = "late", "reject"
+			}
+		}
+		hc.frames = append(keep, late...)
+	case "dup":
+		// only copies the code promises to drop: an intermediate chunk repeated before the
+		// next chunk of its request (chunks of other requests may lie between)
+		var cand []int
+		for i, f := range hc.frames {
+			if f.chunk.Type == 'C' {
+				cand = append(cand, i)
+			}
+		}
+		if len(cand) == 0 {
+			return nil
+		}
+		i := cand[e.rnd.Intn(len(cand))]
+		j := i + 1
+		for hc.frames[j].chunk.Req != hc.frames[i].chunk.Req {
+			j++
+		}
+		at := i + 1 + e.rnd.Intn(j-i)
+		cp := hc.frames[i]
+		cp.kind, cp.expect = "copy", "reject"
+		hc.frames = append(hc.frames[:at], append([]frame{cp}, hc.frames[at:]...)...)
+	case "copy":
 		nc := 1 + e.rnd.Intn(3)
 		for c := 0; c < nc; c++ {
 			i := e.rnd.Intn(len(hc.frames))
@@ -153,7 +212,7 @@ func (e *env) gen(adversary string) *hcase {
 			cp := hc.frames[i]
 			cp.kind, cp.expect = "copy", "reject"
 			at := i + 1 // right behind the original …
-			if e.rnd.Bool() {
+			if e.rnd.Chance(60) {
 				at = i + 1 + e.rnd.Intn(len(hc.frames)-i) // … or anywhere later
 			}
 			hc.frames = append(hc.frames[:at], append([]frame{cp}, hc.frames[at:]...)...)
@@ -166,6 +225,32 @@ func (e *env) gen(adversary string) *hcase {
 		hc.frames = append(hc.frames[:i], append([]frame{t}, hc.frames[i:]...)...)
 	}
 	return hc
+}
+
+// benignCopies reports whether every copy in the history is a copy of an
+// intermediate chunk with no other chunk of the same request id between the
+// original and the copy: these the code promises to drop (C10_duplicate_in_message).
+func benignCopies(hc *hcase) bool {
+	for i, f := range hc.frames {
+		if f.kind != "copy" {
+			continue
+		}
+		if f.chunk.Type != 'C' {
+			return false
+		}
+		ok := false
+		for j := i - 1; j >= 0; j-- {
+			g := hc.frames[j]
+			if g.chunk.Req == f.chunk.Req {
+				ok = g.chunk.Token() == f.chunk.Token()
+				break
+			}
+		}
+		if !ok {
+			return false
+		}
+	}
+	return true
 }
 
 func (e *env) line(hc *hcase) string {
@@ -211,13 +296,6 @@ func (e *env) runCase(hc *hcase) {
 		}
 	}
 	ln, rn := e.rnd.Bytes(32), e.rnd.Bytes(32)
-	cfg := h.RecvSecureConfig(hc.uri, hc.mode, e.keyA, e.keyB.CertDER)
-	rc, err := h.OpenRecvChannel(cfg, h.RecvAck(65535, 65535, 512, 2*1024*1024), hc.server, 11, 22, 1, ln, rn)
-	if err != nil {
-		e.r.InfraError = "OpenRecvChannel: " + err.Error()
-		return
-	}
-	defer rc.Close()
 	sealer, err := h.NewRecvSealer(hc.uri, hc.mode, ln, rn)
 	if err != nil {
 		e.r.InfraError = "sealer: " + err.Error()
@@ -243,12 +321,31 @@ func (e *env) runCase(hc *hcase) {
 		f.wire = w // a copy is the same bytes as its original
 		out = append(out, w)
 	}
-	werr := make(chan error, 1)
-	go func() { werr <- h.RecvWriteAll(rc.Peer, out) }()
-	got, ok := h.RecvDrain(rc, len(out)+2, 20*time.Second)
-	if err := <-werr; err != nil || !ok {
-		e.r.InfraError = fmt.Sprintf("stream not consumed: %v ok=%v", err, ok)
+	job := &h.RecvJob{Setup: "open", Server: hc.server, URI: hc.uri, Mode: int(hc.mode), LocalNonce: ln, RemoteNonce: rn, KeyDir: e.o.Keys,
+		Ack: []uint32{65535, 65535, 512, 2 * 1024 * 1024}, ChannelID: 11, TokenID: 22, Frames: out, DeadlineMs: 20000}
+	res := e.w.Do(job)
+	if res.Outcome == "timeout" {
+		res = e.w.Do(job)
+	}
+	if strings.HasPrefix(res.Outcome, "panic") || strings.HasPrefix(res.Outcome, "crash") {
+		e.r.Count(line, true)
+		e.fail(line, "", "the receive path does not survive the history: "+res.Outcome)
 		return
+	}
+	if res.Outcome != "ok" {
+		e.r.InfraError = "worker: " + res.Outcome
+		return
+	}
+	got := res.Results
+	if res.Entries != 0 {
+		for _, f := range hc.frames {
+			if f.kind == "copy" && f.chunk.Type == 'C' || f.kind == "late" {
+				res.Entries = 0 // such a frame legitimately leaves an unfinished message behind
+			}
+		}
+		if res.Entries != 0 {
+			e.fail(line, "", fmt.Sprintf("%d request ids still buffered although every message of the history is complete", res.Entries))
+		}
 	}
 	adv := "none"
 	for _, f := range hc.frames {
@@ -258,6 +355,9 @@ func (e *env) runCase(hc *hcase) {
 	}
 	e.r.Count(line, adv != "none")
 	e.r.Hit("adversary:" + adv)
+	if adv == "copy" && benignCopies(hc) {
+		e.r.Hit("copies:only-directly-repeated-intermediate-chunks")
+	}
 	e.r.Hit(fmt.Sprintf("mode:%d", hc.mode))
 	e.r.Hit("policy:" + short(hc.uri))
 	if hc.server {
@@ -321,7 +421,7 @@ func (e *env) runCase(hc *hcase) {
 		// signatures: the history contains a verbatim copy (a delayed message) and
 		// everything before the first such frame was handled correctly
 		sig := ""
-		if firstAdv >= 0 && wi >= firstAdv {
+		if firstAdv >= 0 && wi >= firstAdv && !(adv == "copy" && benignCopies(hc)) {
 			if adv == "copy" {
 				sig = sigReplay
 			} else {
@@ -370,6 +470,10 @@ func (e *env) replay(line string) {
 			fr.kind, fr.expect = "copy", "reject"
 		case "l":
 			fr.kind, fr.expect = "late", "reject"
+			bodies[req] = append(bodies[req], fr.chunk.Body...)
+			if ct == 'F' {
+				hc.goods = append(hc.goods, bodies[req])
+			}
 		default:
 			fr.kind, fr.expect = "tampered", "reject"
 		}
@@ -381,6 +485,7 @@ func (e *env) replay(line string) {
 }
 
 func main() {
+	h.RecvWorkerMain()
 	o := h.ParseOpts()
 	r := h.NewResult("C10", o)
 	d, err := h.StartDriver(o.Driver)
@@ -390,7 +495,8 @@ func main() {
 		return
 	}
 	defer d.Close()
-	e := &env{o: o, r: r, d: d, rnd: h.NewRand(o.Seed), known: map[string]int{}}
+	e := &env{o: o, r: r, d: d, rnd: h.NewRand(o.Seed), known: map[string]int{}, w: h.StartRecvWorker(3 << 20)}
+	defer e.w.Close()
 	if e.keyA, err = h.LoadKey(o.Keys, 2048, "a"); err == nil {
 		e.keyB, err = h.LoadKey(o.Keys, 2048, "b")
 	}
@@ -399,7 +505,7 @@ func main() {
 		r.Write(o.Out)
 		return
 	}
-	r.Rule = "case = (policy, mode Sign|SignAndEncrypt, channel kind, history): 2-5 messages of 1-3 properly secured chunks (real symmetric crypto, keys from known nonces) sent to a real open channel over loopback TCP; adversary none (control: must be delivered exactly), copy (1-3 verbatim copies of earlier frames inserted right behind the original or later), late (one complete message delayed behind all later ones); 15% of the histories carry a damaged frame. Real Receive vs Lean Recv.runSealed (fed what each frame opens to) and the property oracle (copies and delayed frames rejected, deliveries = original history). non-trivial = histories with an adversary; distinct by full text"
+	r.Rule = "case = (policy, mode Sign|SignAndEncrypt, channel kind, history): 2-5 messages of 1-3 properly secured chunks (real symmetric crypto, keys from known nonces) sent to a real open channel over loopback TCP; adversary none (control: must be delivered exactly, request ids re-used after completion, neighbouring messages interleaved), dup (an intermediate chunk repeated before the next chunk of its request: must be dropped, no known signature applies), copy (1-3 verbatim copies of earlier frames inserted right behind the original or later), late (one complete message delayed behind all later ones); 15% of the histories carry a damaged frame. Real Receive vs Lean Recv.runSealed (fed what each frame opens to) and the property oracle (copies and delayed frames rejected, deliveries = original history). non-trivial = histories with an adversary; distinct by full text"
 	if o.Replay != "" {
 		e.replay(o.Replay)
 		r.Write(o.Out)
@@ -408,9 +514,9 @@ func main() {
 	for _, l := range o.CorpusLines() {
 		e.replay(l)
 	}
-	n := o.N(120, 3000)
+	n := o.N(150, 3000)
 	for i := 0; i < n && r.InfraError == ""; i++ {
-		adv := []string{"none", "copy", "copy", "late"}[i%4]
+		adv := []string{"none", "copy", "copy", "late", "dup"}[i%5]
 		if hc := e.gen(adv); hc != nil {
 			e.runCase(hc)
 		}
